@@ -19,15 +19,19 @@ EXTENDS Integers, Sequences, FiniteSets, TLC
 CONSTANTS MaxW,       \* worker ids are 1..MaxW, handed out in order
           Tasks,      \* set of task ids
           Children,   \* [Tasks -> Seq(Tasks)] tasks a task submits while it runs
+          Needs,      \* [Tasks -> SUBSET Tasks] tasks that must have been started before a task can end
           Clients,    \* set of client names
           Script,     \* [Clients -> Seq(op)]
-          Variant,    \* "code" | "found-wakeup" | "found-resize"
+          Variant,    \* "code" | "found-wakeup" | "found-resize" | "signal-if-first"
           RecordHist  \* keep the behaviour in hist (simulation / export only)
 
 \* found-wakeup: unconditional Cond.Wait (lost wake-up).  found-resize: a resize neither cancels a
 \* pending stop request of an earlier resize nor sees workers which already decided to stop.
+\* signal-if-first: AddTask signals only when the queue was empty before the push ("a worker has
+\* been woken already"): the second task of a burst stays queued while a worker sleeps.
 Guarded == Variant # "found-wakeup"
 ResizeFix == Variant # "found-resize"
+SignalAlways == Variant # "signal-if-first"
 
 W == 1..MaxW
 
@@ -139,7 +143,8 @@ W_AfterWake(w) ==
   /\ Log(w, "W_AfterWake")
 
 \* AddTask: Push and Signal in one critical section of the queue lock (the lock of the condition)
-AddTaskEffect(t) == /\ queue' = Append(queue, t) /\ accepted' = accepted \cup {t} /\ SignalEffect
+AddTaskEffect(t) == /\ queue' = Append(queue, t) /\ accepted' = accepted \cup {t}
+                    /\ IF SignalAlways \/ queue = <<>> THEN SignalEffect ELSE UNCHANGED <<woken, cw>>
 
 \* task.start -> task.child (the task is about to submit its first child) | task.end
 W_TStart(w) ==
@@ -162,9 +167,11 @@ W_TChild(w) ==
   /\ UNCHANGED <<wmap, idle, kill, nextW, wdec, wgot, wtask, ci, cst, csamp, started, done, busy>>
   /\ Log(w, "W_TChild")
 
-\* task.end -> pool.worker.head
+\* task.end -> pool.worker.head; a task which needs other tasks blocks (inside the task, after its
+\* last gate) until each of them has been started - the pool must start them on its other workers
 W_TEnd(w) ==
   /\ wpc[w] = "tend"
+  /\ \A t \in Needs[wtask[w]] : started[t] = 1
   /\ done' = done \cup {wtask[w]}
   /\ busy' = busy \ {wtask[w]}
   /\ wtask' = [wtask EXCEPT ![w] = NoTask]
